@@ -74,6 +74,21 @@ def main():
                     cases.append({"root": root, "moves": mv[:k], "want_fen": st[k]["fen"], "want_replies": sorted(st[k]["replies"]),
                                   "use_startpos": sp, "go": chk.rng.random() < 0.1 and len(st[k]["replies"]) > 0,
                                   "newgame": chk.rng.random() < 0.2})
+    # targeted family: every legal move of any piece onto an en-passant target square (the genuine capture and the
+    # king / knight / bishop / rook / queen moves that merely land there)
+    goe = vlib.tlc("Gen_OntoEp", timeout=1200, xmx="2g")
+    if goe.error:
+        raise vlib.ToolError("Gen_OntoEp: " + goe.error)
+    onto = [d for t, d in goe.reports if t == "GEN"]
+    if len(onto) < 500:
+        raise vlib.ToolError("Gen_OntoEp produced only %d cases" % len(onto))
+    if q:
+        chk.rng.shuffle(onto)
+        onto = onto[:400]
+    for d in onto:
+        cases.append({"root": d["root"], "moves": [d["move"]], "want_fen": d["want_fen"], "want_replies": sorted(d["want_replies"]),
+                      "use_startpos": False, "go": False, "newgame": False})
+        specials += 1
     # keep the cases of one game together and in order (growing move lists): contiguous chunks
     per = -(-len(cases) // 16)
     chunks = [cases[i:i + per] for i in range(0, len(cases), per)]
